@@ -388,6 +388,63 @@ func disjointUnion(a, b gJ) gJ {
 	return gJ{N: a.N + b.N, E: e}
 }
 
+// structuredGraph: a random graph with automorphisms, 9..16 vertices: a disjoint union of small named pieces (some of them twice),
+// possibly complemented, possibly with one further vertex joined to a random subset.
+func structuredGraph(r *rand.Rand) gJ {
+	piece := func() gJ {
+		switch r.Intn(11) {
+		case 0:
+			return gJOf(graph.Cycle(3 + r.Intn(5)))
+		case 1:
+			return gJOf(graph.Path(1 + r.Intn(4)))
+		case 2:
+			return gJOf(graph.CompleteGraph(1 + r.Intn(4)))
+		case 3:
+			return gJOf(graph.Star(2 + r.Intn(4)))
+		case 4:
+			return gJOf(graph.CompletePartiteGraph(1+r.Intn(3), 1+r.Intn(3)))
+		case 5:
+			return gJOf(graph.GeneralisedPetersenGraph(3+r.Intn(2), 1))
+		case 6:
+			return gJOf(graph.HypercubeGraph(1 + r.Intn(3)))
+		case 7:
+			return gJOf(graph.CirculantGraph(5+r.Intn(4), 1, 2))
+		case 8:
+			return gJOf(graph.FriendshipGraph(2 + r.Intn(2)))
+		case 9:
+			return gJOf(graph.RandomTree(2+r.Intn(6), r.Int63()))
+		}
+		return randGraphJ(r, 3+r.Intn(4), 0.5)
+	}
+	for {
+		u := gJ{N: 0}
+		for u.N < 9 {
+			p := piece()
+			u = disjointUnion(u, p)
+			if r.Intn(3) == 0 {
+				u = disjointUnion(u, p)
+			}
+		}
+		if u.N > 16 {
+			continue
+		}
+		g := graphOfJ("dense", u)
+		if r.Intn(2) == 0 {
+			g = graph.ComplementDense(g)
+		}
+		if r.Intn(4) == 0 && g.N() < 16 {
+			nb := []int{}
+			for v := 0; v < g.N(); v++ {
+				if r.Intn(2) == 0 {
+					nb = append(nb, v)
+				}
+			}
+			g.AddVertex(nb)
+		}
+		return gJOf(g)
+	}
+}
+
 // cycleUnion: the disjoint union of cycles of the given lengths (equal lengths adjacent), generators of its automorphism group
 // (rotation and reflection of every cycle, swap of each adjacent pair of equal cycles) and the order of that group.
 func cycleUnion(lens []int) (u gJ, known [][]int, order int) {
@@ -740,6 +797,16 @@ func canonGrid(c *Ctx, prop string) []canonIn {
 			swap[i], swap[n+i] = n+i, i
 		}
 		add(canonIn{Kind: "full", Name: "2xpath", G: pp, Known: [][]int{swap}, Rep: "dense", Pi: r.Perm(2 * n)})
+	}
+	// random structured graphs on 9..16 vertices: too large for brute-force Aut(g); judged by "generators are automorphisms" and
+	// "returned orbits = orbits of the returned generators" (the two outputs are computed by different code paths)
+	nstruct := 700
+	if big {
+		nstruct = 5000
+	}
+	for i := 0; i < nstruct; i++ {
+		g := structuredGraph(r)
+		add(canonIn{Kind: "full", Name: "structured", G: g, Rep: []string{"dense", "sparse"}[i%2], Pi: r.Perm(g.N)})
 	}
 	// disjoint unions of cycles and their complements (same automorphism group): rotations and reflections of every cycle and swaps of
 	// equal cycles are known; one cell that refinement cannot split, orbits of different sizes in it (the family of defect 533abb7)
